@@ -139,6 +139,8 @@ func runGenXInit(e *env, s *GenXSpec) (StepObs, sdk.Context) {
 	}
 	for _, r := range s.Relayers {
 		cg.Relayers = append(cg.Relayers, clienttypes.IdentifiedRelayer{Address: string(unhex(r.Address)), Chains: unhexAll(r.Chains), Addresses: unhexAll(r.Addresses)})
+		_, berr := sdk.AccAddressFromBech32(string(unhex(r.Address)))
+		o.ROracles = append(o.ROracles, berr == nil)
 	}
 	pg := packettypes.GenesisState{Acknowledgements: packetStates(s.Acks), Commitments: packetStates(s.Commitments), Receipts: packetStates(s.Receipts)}
 	for _, q := range s.Seqs {
@@ -187,13 +189,19 @@ func genRelayer(r *hlib.Rand) GXRelayer {
 	if r.Chance(1, 6) {
 		rl.Address = hx(pick(r, "", "", "x", "not-bech32", good+"x"))
 	}
-	n := r.Intn(3)
+	n := 1 + r.Intn(3)
+	if r.Chance(1, 10) {
+		n = 0
+	}
 	for i := 0; i < n; i++ {
 		rl.Chains = append(rl.Chains, hx(chainPool[r.Intn(len(chainPool))]))
 		rl.Addresses = append(rl.Addresses, hx("0xabc"))
 	}
-	if r.Chance(1, 5) {
-		rl.Chains = append(rl.Chains, hx(""))
+	if r.Chance(1, 10) {
+		rl.Chains = append(rl.Chains, hx(pick(r, "", "ab", "chain-b")))
+	}
+	if r.Chance(1, 12) {
+		rl.Addresses = append(rl.Addresses, hx("0xdef"))
 	}
 	return rl
 }
